@@ -35,13 +35,15 @@ def run_unit(unit, repo=REPO, rlimit=None, threads=8, canary=None, suffix='', ma
     rl = rlimit or UNIT_RLIMIT.get(unit, 40)
     demoted = {}
     dropped_fns = {}
+    aliases = []
     rnd = -1
-    while rnd + 1 < max_rounds + len(demoted) + len(dropped_fns):
+    while rnd + 1 < max_rounds + len(demoted) + len(dropped_fns) + len(aliases):
         rnd += 1
         ug = UnitGen(repo, os.path.join(VERIF, 'units'), disabled=disabled)
         ug.canary = canary
         ug.force_assumed = set(demoted)
         ug.force_drop = set(dropped_fns)
+        ug.extra_aliases = list(aliases)
         try:
             g = ug.generate(unit)
         except ExtractError as e:
@@ -95,6 +97,13 @@ def run_unit(unit, repo=REPO, rlimit=None, threads=8, canary=None, suffix='', ma
             elif u_.startswith('tool/compile error') and m_ and m_.group(1) in g.fns:
                 sig_culprits.add(m_.group(1))   # the copied signature of an ASSUMED function does not compile here
         compile_errs = [u_ for u_ in und if u_.startswith('tool/compile error')]
+        # a copied item names a module-level type alias of the repository that the unit does not have yet: fetch it
+        need = set(_re.findall(r'cannot find type `(\w+)` in this scope', ' '.join(compile_errs))) - set(a[0] for a in aliases)
+        got_alias = [ug.find_alias(n_) for n_ in sorted(need)]
+        got_alias = [a_ for a_ in got_alias if a_]
+        if got_alias and len(aliases) + len(got_alias) <= 4 and not hints:
+            aliases += got_alias
+            continue
         if sig_culprits and len(sig_culprits) + len(dropped_fns) <= 3 and not hints:
             for c_ in sig_culprits:
                 dropped_fns[c_] = [u_ for u_ in compile_errs if u_.endswith('[outside-subset-in=%s]' % c_)][0][:300]
